@@ -42,7 +42,10 @@ CHECKS = {
             "inside its state, handler returning None) the model raises; elsewhere it does exactly what the "
             "spec says; it never diverges (C24_dispatch_no_diverge). Uses generated switches drillGuard and "
             "initGuard (the two repairs). C24_start_checked needs 0 < depth or no init at the start state "
-            "(fuel artefact, proved necessary in the model by start_depth0_diverges).", "§8 C24", NOTE_L1),
+            "(fuel artefact, proved necessary in the model by start_depth0_diverges). Handlers without a final else "
+            "(no status and no parent for anything they have no clause for; Chart.fall, driver family hsmf): "
+            "C24_fall_dispatch_checked / C24_fall_start_checked (spec-conformant, or a raise that touches the faulty state), "
+            "C24_fall_*_no_diverge, C24_fall_not_touched.", "§8 C24", NOTE_L1),
     "C14": ("Lean 4 invariant proofs over arbitrary operation lists + per-operation correspondence",
             "Theorems over all queued charts, handler effect tables and client operation lists: next_rtc "
             "dispatches exactly the queue head, posts land at back/front (also from handlers, applied in "
@@ -89,7 +92,10 @@ CHECKS = {
             "Theorems: subscribe is idempotent, adds exactly the subscribing queue and never removes/duplicates others; the "
             "registry is exactly the set of subscribers; a delivery adds the event exactly once to exactly the registered "
             "queues; fabric events pending in a queue have distinct sequence numbers (processed at most once), each "
-            "publish creates one per kind. Tie: real fabric threads under the deterministic scheduler, per step.",
+            "publish creates one per kind. Fine-grained model Conc.FabFine (one step per q.append, Python list-iterator "
+            "semantics, subscribes interleaved with a delivery loop): C06_fine_at_most_once / exactly_once / order for every "
+            "schedule, witness for a list-rewriting _subscribe; subscribe is one step because of the fabric's subscription "
+            "lock (generated tag). Tie: real fabric threads under the deterministic scheduler, per step (families fab, fabfine).",
             "§8 C06", NOTE_CONC),
     "C08": ("Lean 4 proofs: PriorityQueue.get returns the (priority, sequence) minimum; draining is sorted",
             "Theorems: minFE returns the least element in (priority, creation sequence) order; draining any queued content "
@@ -101,7 +107,9 @@ CHECKS = {
     "C13": ("Lean 4 invariant over all schedules and call sequences + schedule-replay correspondence",
             "Theorems: at most one live delivery thread per kind in every reachable state for any client programs; "
             "is_alive() reports exactly that both run; start keeps live threads and replaces dead ones; stop's joins "
-            "complete only when the threads have finished; witness for the earlier start().", "§8 C13", NOTE_CONC),
+            "complete only when the threads have finished; witness for the earlier start(). Dying delivery threads (model "
+            "Conc.FabFault, call level): at most one thread per kind, start() repairs exactly the dead one, stop() returns, "
+            "is_alive exact, for every call sequence; witness for a whole-fabric liveness test.", "§8 C13", NOTE_CONC),
     "C10": ("Lean 4 invariants over all schedules of the timer/clock model + schedule-replay correspondence with a virtual clock",
             "Theorems: a source with times=n activates at most n times and has posted exactly n when finished (absent "
             "cancellation); no posting is early and postings are at least a period apart; exact instants under lazy-clock "
@@ -114,8 +122,11 @@ CHECKS = {
             "unlocked check-then-post).", "§8 C11", NOTE_CONC),
     "C12": ("Lean 4 proofs on the AO system model + schedule-replay correspondence",
             "Theorems: stop()'s join completes only when the consumer thread has finished; afterwards no step changes the "
-            "dispatch log; the run flag stays cleared; every tracked source is cancelled and silent. Partial: stop() "
-            "called from a handler is covered by the correspondence only.", "§8 C12", NOTE_CONC),
+            "dispatch log; the run flag stays cleared; every tracked source is cancelled and silent. Handlers that arm timed "
+            "sources while stop() is in progress (model Conc.AOArm, lock granularity, spurious wake-ups, cancel by name): "
+            "after stop() returned every source is cancelled and untracked, nothing posts or steps, and stop() returns under "
+            "every fair schedule; witness for a snapshot taken before the join. Partial: stop() called from a handler is "
+            "covered by the correspondence / oracle only.", "§8 C12", NOTE_CONC),
     "C31": ("Lean 4 one-step and invariant proofs + schedule-replay correspondence",
             "Theorems: a timed post at capacity creates no source (nothing can ever post for it) and returns the error "
             "result; accepted sources are tracked; tracked count never exceeds the capacity.", "§8 C31", NOTE_CONC),
